@@ -4,6 +4,7 @@ use clarabel::solver::SolverStatus;
 use clarabel::verif::IterEvent;
 use serde_json::json;
 use vkit::cones::{cone_dim, cone_ranges, margin, ConeT};
+use vkit::dense::Dense;
 use vkit::gen::{self, GenOpts};
 use vkit::problem::{self, is_infeasible_status, status_name};
 use vkit::{Ctx, Rng};
@@ -20,6 +21,14 @@ fn interior_violation(cones: &[ConeT], e: &IterEvent) -> Option<serde_json::Valu
         if let ConeT::ZeroConeT(_) = c {
             if s.iter().any(|v| *v != 0.0) {
                 return Some(json!({"what": "zero-cone slack not exactly zero", "cone": ci, "s": s, "iteration": e.iterations}));
+            }
+            continue;
+        }
+        // the nonnegative orthant needs no rounding allowance: its margin is min(s_i), computed exactly,
+        // and the implementation itself divides by and takes logarithms of these components
+        if let ConeT::NonnegativeConeT(_) = c {
+            if let Some(i) = s.iter().chain(z.iter()).position(|v| !(*v > 0.0)) {
+                return Some(json!({"what": "nonnegative-cone component not strictly positive", "cone": ci, "component": i % s.len(), "of": if i < s.len() { "s" } else { "z" }, "s": s, "z": z, "iteration": e.iterations}));
             }
             continue;
         }
@@ -86,6 +95,33 @@ pub fn run(ctx: &mut Ctx) {
                 }
             }
             ctx.bump("far_start_instances");
+        } else if rng.bool(0.1) {
+            // a contradictory pair of big-M bounds  r.x >= M  and  -r.x >= M  (M up to 1e30): the
+            // least-squares start has both slacks at about -M while everything else stays O(1), so the shift
+            // into the interior must move the iterate by M and still leave a positive margin
+            let (n, m) = (p.n(), p.m());
+            let big = 10f64.powf(rng.range(15.0, 30.0));
+            let mut a = Dense::from_csc(&p.A);
+            let mut a2 = Dense::zeros(m + 2, n);
+            for i in 0..m {
+                for j in 0..n {
+                    a2.set(i, j, a.get(i, j));
+                }
+            }
+            let j0 = rng.usize(0, n - 1);
+            for j in 0..n {
+                if j == j0 || rng.bool(0.3) {
+                    let v = rng.range(0.5, 2.0) * if rng.bool(0.5) { 1.0 } else { -1.0 };
+                    a2.set(m, j, -v);
+                    a2.set(m + 1, j, v);
+                }
+            }
+            a = a2;
+            p.A = a.to_csc();
+            p.b.push(-big);
+            p.b.push(-big);
+            p.cones.push(ConeT::NonnegativeConeT(2));
+            ctx.bump("big_M_pair_instances");
         }
         let mut st = gen::random_settings(&mut rng, true);
         st.max_step_fraction = *rng.choose(&[0.5, 0.9, 0.99, 0.999]);
@@ -109,7 +145,11 @@ pub fn run(ctx: &mut Ctx) {
         for (k, e) in its.iter().enumerate() {
             ctx.eval(1);
             if let Some(v) = interior_violation(&cones, e) {
-                ctx.violation("iterate_not_interior", "iterate_not_interior", wl, case, case_json(&p, &st, &long, v));
+                // recorded finding: kappa decays geometrically for > 100 iterations on a numerically stuck
+                // instance and finally underflows to exactly 0.0 (tau stays positive)
+                let underflow = e.κ == 0.0 && e.τ > 0.0 && k > 0 && its[k - 1].κ > 0.0 && its[k - 1].κ < 1e-290 && e.iterations > 100;
+                let sig = if underflow { "iterate_not_interior:kappa_underflow" } else { "iterate_not_interior" };
+                ctx.violation("iterate_not_interior", sig, wl, case, case_json(&p, &st, &long, v));
                 break;
             }
             if let Some(pi) = prev_idx {
